@@ -84,6 +84,7 @@ type Run struct {
 	exhSet      bool
 	violations  int
 	pending     []Violation
+	subVios     []map[string]interface{}
 	alternates  map[string][]Violation
 	vioKeys     map[string]int
 	knownHit    map[string]int
@@ -427,6 +428,11 @@ func (r *Run) confirm() (int, []string) {
 			"property": r.ID, "kind": v.Kind, "key": v.Key, "what": v.What,
 			"tier": r.Tier, "seed": r.Seed, "input": v.Replay,
 		}
+		if SubPath != "" {
+			// a sub-run reports to the run that started it
+			r.subVios = append(r.subVios, doc)
+			continue
+		}
 		b, _ := json.MarshalIndent(doc, "", " ")
 		sum := sha1.Sum(b)
 		dir := filepath.Join(Root, "replays")
@@ -442,6 +448,29 @@ func (r *Run) confirm() (int, []string) {
 }
 
 var finishMu sync.Mutex // locked by the first Finish and never released
+
+// SubPath, when set (environment VERIF_SUB), makes this process a sub-run: a
+// part of a check that needs another build of the library (the native engine
+// next to the instrumented one). It writes its counters and its confirmed
+// violations to SubPath instead of evidence / replay files and exits 0; the
+// run that started it files them under its own property.
+var SubPath = os.Getenv("VERIF_SUB")
+
+// ReplayProperty is the property of the replay file being re-executed.
+var ReplayProperty string
+
+// SubResult is what a sub-run wrote.
+type SubResult struct {
+	Coverage    map[string]interface{} `json:"coverage"`
+	Assumptions []string               `json:"assumptions"`
+	Violations  []struct {
+		Kind  string          `json:"kind"`
+		Key   string          `json:"key"`
+		What  string          `json:"what"`
+		Input json.RawMessage `json:"input"`
+	} `json:"violations"`
+	Unconfirmed []string `json:"unconfirmed"`
+}
 
 // Fatalf prints an infrastructure error and exits 2.
 func Fatalf(format string, a ...interface{}) {
@@ -506,6 +535,15 @@ func (r *Run) Finish() {
 		"violations": r.violations,
 	}
 	vio := r.violations
+	if SubPath != "" {
+		sd := map[string]interface{}{"coverage": cov, "assumptions": r.assumptions, "violations": r.subVios, "unconfirmed": unconfirmed}
+		r.mu.Unlock()
+		b, _ := json.Marshal(sd)
+		if err := os.WriteFile(SubPath, b, 0o644); err != nil {
+			Fatalf("cannot write the sub-run result: %v", err)
+		}
+		os.Exit(0)
+	}
 	r.mu.Unlock()
 	b, _ := json.MarshalIndent(doc, "", " ")
 	dir := filepath.Join(Root, "evidence")
@@ -614,6 +652,7 @@ func Main(args []string) {
 		if c == nil || c.Replay == nil {
 			Fatalf("no replay function for %s in this binary", doc.Property)
 		}
+		ReplayProperty = doc.Property
 		bad, detail := c.Replay(doc.Kind, doc.Input)
 		fmt.Printf("replay %s kind=%s\n%s\n", doc.Property, doc.Kind, detail)
 		if bad {
